@@ -1030,6 +1030,11 @@ class Interp:
                 return
             if isinstance(t, ast.Subscript) and isinstance(t.value, ast.Name) and t.value.id in fr.env \
                     and fr.env[t.value.id][0] not in ('sym', 'attr', 'bvar', 'idx') and not isinstance(t.slice, ast.Slice):
+                if op == 'Add' and v[0] == 'list':
+                    # X[i] += [a, b]: the slot is a list that is extended in place
+                    for el in v[1]:
+                        self.accumulate(t.value.id, 'appendidx', self.ex(t.slice, fr), el, fr, s)
+                    return
                 self.accumulate(t.value.id, {'Add': 'addidx', 'Sub': 'subidx'}.get(op, op + 'idx'), self.ex(t.slice, fr), v, fr, s)
                 return
             tt = self.target_term(t, fr)
@@ -1313,6 +1318,9 @@ class Interp:
                     del self.heap[k]
 
     def stmt_for(self, s, fr):
+        ir = self.induction_rewrite(s, fr)
+        if ir is not None:
+            return self.stmt_for(ir, fr)
         dom = self.ex(s.iter, fr)
         if s.orelse:
             raise Unknown('for-else')
@@ -1497,7 +1505,77 @@ class Interp:
         ast.fix_missing_locations(node)
         return node
 
+    def filling_while(self, s, fr):
+        """while len(X) < N: X.append(E)   (X a local list of known literal length L0, N independent of X)  ->
+        for _ in range(N - L0): X.append(E)"""
+        if s.orelse or len(s.body) != 1:
+            return None
+        st = s.body[0]
+        if not (isinstance(st, ast.Expr) and isinstance(st.value, ast.Call) and isinstance(st.value.func, ast.Attribute) and st.value.func.attr == 'append'
+                and isinstance(st.value.func.value, ast.Name) and len(st.value.args) == 1):
+            return None
+        X = st.value.func.value.id
+        c = s.test
+        if not (isinstance(c, ast.Compare) and len(c.ops) == 1):
+            return None
+        l, op, r = c.left, c.ops[0], c.comparators[0]
+        if isinstance(op, ast.Gt):
+            l, r, op = r, l, ast.Lt()
+        is_len = isinstance(l, ast.Call) and isinstance(l.func, ast.Name) and l.func.id == 'len' and len(l.args) == 1 and isinstance(l.args[0], ast.Name) and l.args[0].id == X
+        if not (is_len and isinstance(op, ast.Lt)) or any(isinstance(x, ast.Name) and x.id == X for x in ast.walk(r)) \
+                or any(isinstance(x, ast.Name) and x.id == X for x in ast.walk(st.value.args[0])):
+            return None
+        cur = fr.env.get(X)
+        if cur is None or not is_literal_seq(cur):
+            return None
+        n = r if not cur[1] else ast.BinOp(left=r, op=ast.Sub(), right=ast.Constant(len(cur[1])))
+        node = ast.For(target=ast.Name(id='_fill', ctx=ast.Store()), iter=ast.Call(func=ast.Name(id='range', ctx=ast.Load()), args=[n], keywords=[]),
+                       body=s.body, orelse=[])
+        ast.copy_location(node, s)
+        ast.fix_missing_locations(node)
+        return node
+
+    def induction_rewrite(self, s, fr):
+        """A counter that is incremented by one exactly once per iteration, unconditionally, and starts at a known integer is
+        the position in the loop:  k = c; for x in D: ...; k += 1; ...   ->   for _i, x in enumerate(D): k = _i + c; ...;
+        k = _i + c + 1; ..."""
+        if getattr(s, '_induction_done', False) or s.orelse:
+            return None
+        incs = [st for st in s.body if isinstance(st, ast.AugAssign) and isinstance(st.target, ast.Name) and isinstance(st.op, ast.Add)
+                and isinstance(st.value, ast.Constant) and st.value.value == 1]
+        out = None
+        for inc in incs:
+            k = inc.target.id
+            cur = fr.env.get(k)
+            if cur is None or cur[0] != 'const' or not isinstance(cur[1], int) or isinstance(cur[1], bool) or fr.defdepth.get(k, 0) > fr.loopdepth:
+                continue
+            stores = [x for st in s.body for x in ast.walk(st) if isinstance(x, ast.Name) and x.id == k and isinstance(x.ctx, ast.Store)]
+            if len(stores) != 1 or any(isinstance(x, (ast.Continue, ast.Break)) for st in s.body for x in ast.walk(st)):
+                continue
+            if isinstance(s.target, ast.Name) and s.target.id == k:
+                continue
+            import copy
+            iv = '_pos_%s' % k
+            pos = s.body.index(inc)
+            def assign(offset):
+                a = ast.Assign(targets=[ast.Name(id=k, ctx=ast.Store())], value=ast.BinOp(left=ast.Name(id=iv, ctx=ast.Load()), op=ast.Add(), right=ast.Constant(cur[1] + offset)))
+                ast.copy_location(a, inc)
+                ast.fix_missing_locations(a)
+                return a
+            body = [assign(0)] + list(s.body[:pos]) + [assign(1)] + list(s.body[pos + 1:])
+            node = ast.For(target=ast.Tuple(elts=[ast.Name(id=iv, ctx=ast.Store()), s.target], ctx=ast.Store()),
+                           iter=ast.Call(func=ast.Name(id='enumerate', ctx=ast.Load()), args=[s.iter], keywords=[]), body=body, orelse=[])
+            ast.copy_location(node, s)
+            ast.fix_missing_locations(node)
+            node._induction_done = True
+            out = node
+            break
+        return out
+
     def stmt_while(self, s, fr):
+        fw = self.filling_while(s, fr)
+        if fw is not None:
+            return self.stmt_for(fw, fr)
         cw = self.counting_while(s, fr)
         if cw is not None:
             return self.stmt_for(cw, fr)
